@@ -16,6 +16,12 @@ class Ctx:
         self.R = Resolver(self.m)
         self._cg = None
         self._optreads = None
+        from .reasons import Renames
+        self.renames = Renames(self.m)
+
+    def rk(self, key):
+        """Key under which a function appears in the reason tables (follows pure renames, engine/reasons.py)."""
+        return self.renames.key(key)
 
     # ------------------------------------------------------------------ call graph
     def node(self, func, ctx):
